@@ -82,11 +82,15 @@ func C07(ctx *core.Ctx) {
 		ctx.Check(okPub, "C07.R8", ssax.Name(pub)+" › publishes prepareMessage's bytes under the topic parameter", fnPos(r, pub), "publisher.Publish(topic, payload)", "what is published is not the encoded message, or not under the caller's topic")
 	}
 	for h := range msgHandlers(r) {
-		if h.Signature.Recv() == nil {
+		owner := h // a handler written as a closure belongs to the method that builds it
+		for owner.Parent() != nil {
+			owner = owner.Parent()
+		}
+		if owner.Signature.Recv() == nil {
 			continue
 		}
 		it := ssax.Iface(r.Pkg, "FSubscriberTransport")
-		if it == nil || !types.Implements(h.Signature.Recv().Type(), it) {
+		if it == nil || !types.Implements(owner.Signature.Recv().Type(), it) {
 			continue
 		}
 		n := 0
